@@ -261,12 +261,16 @@ impl Plugins {
                 } else {
                     Some(shutdown.wait_for_pre_shutdown())
                 };
+                #[cfg(feature = "verif-hooks")]
+                crate::verif::point("ctl.recv", i64::from(no_wait));
                 shutdown.shutdown();
                 let sender = if let Some(sender) = sender {
                     Some(sender.await)
                 } else {
                     None
                 };
+                #[cfg(feature = "verif-hooks")]
+                crate::verif::point("ctl.reply", i64::from(no_wait));
 
                 PluginResponse::ok("'Successfully completed a graceful shutdown.'")
                     .close()
@@ -584,10 +588,19 @@ pub(crate) async fn listen(
 
         info!("try send shutdown to previous instance");
         if supports_shutdown {
-            match kvarn_signal::unix::send_to(b"shutdown no-wait".to_vec(), &path)
-                .await
-                .as_deref()
-            {
+            #[cfg(feature = "verif-hooks")]
+            crate::verif::point("ctl.send", 0);
+            let reply = kvarn_signal::unix::send_to(b"shutdown no-wait".to_vec(), &path).await;
+            #[cfg(feature = "verif-hooks")]
+            crate::verif::point(
+                "ctl.got",
+                match &reply {
+                    kvarn_signal::unix::Response::NotFound => 0,
+                    kvarn_signal::unix::Response::Data(data) if data.starts_with(b"ok") => 1,
+                    _ => 2,
+                },
+            );
+            match reply.as_deref() {
                 // continue normally
                 kvarn_signal::unix::Response::Data(data) if data.starts_with(b"ok") => {
                     info!("Old instance is shutting down");
@@ -680,6 +693,8 @@ pub(crate) async fn listen(
             path,
         )
         .await;
+        #[cfg(feature = "verif-hooks")]
+        crate::verif::point("ctl.started", i64::from(overriden));
 
         #[cfg(feature = "graceful-shutdown")]
         let _task = spawn(async move {
